@@ -12,6 +12,7 @@ import (
 	"time"
 
 	"github.com/hslam/rpc"
+	"github.com/hslam/socket"
 )
 
 type ArgSvc struct {
@@ -109,4 +110,153 @@ func sizesSeen(a *ArgSvc) []int {
 		}
 	}
 	return out
+}
+
+// ---- handlers that finish at the same instant, and arguments while the handler runs ----
+
+type BarrierSvc struct {
+	mu      sync.Mutex
+	n, want int
+	gate    chan struct{}
+	changed int32
+	entered chan struct{}
+	release chan struct{}
+}
+
+// Meet returns when `want` handlers have arrived (or after a while): all of them answer at once.
+func (b *BarrierSvc) Meet(req *[]byte, res *[]byte) error {
+	b.mu.Lock()
+	b.n++
+	if b.n == b.want {
+		close(b.gate)
+	}
+	g := b.gate
+	b.mu.Unlock()
+	select {
+	case <-g:
+	case <-time.After(2 * time.Second):
+	}
+	*res = append([]byte{0x5A}, *req...)
+	return nil
+}
+
+// Hold looks at its arguments when it starts and again when it is released.
+func (b *BarrierSvc) Hold(req *[]byte, res *[]byte) error {
+	d1 := sha256.Sum256(*req)
+	close(b.entered)
+	<-b.release
+	if sha256.Sum256(*req) != d1 {
+		b.mu.Lock()
+		b.changed++
+		b.mu.Unlock()
+	}
+	*res = []byte{1}
+	return nil
+}
+
+func serverConcurrentAnswers(e *Env) {
+	rounds := 2
+	if e.thorough() {
+		rounds = 20
+	}
+	for _, enc := range []string{"", "pb", "code", "json"} {
+		for round := 0; round < rounds; round++ {
+			const n = 40
+			direct := round%2 == 1
+			desc := map[string]interface{}{"header_encoder": enc, "server_directIO": direct, "concurrent_handlers": n, "round": round, "seed": e.Seed}
+			e.inflight(desc)
+			svc := &BarrierSvc{want: n, gate: make(chan struct{})}
+			srv := rpc.NewServer()
+			srv.SetLogLevel(rpc.OffLogLevel)
+			srv.SetDirectIO(direct)
+			srv.RegisterName("B", svc)
+			cend, send := newPipeCap(1 << 12)
+			go srv.ServeCodec(rpc.NewServerCodec(&rpc.BYTESCodec{}, encoderOf(enc), send, direct, 0))
+			conn := rpc.NewConnWithCodec(rpc.NewClientCodec(&rpc.BYTESCodec{}, encoderOf(enc), cend, 0))
+			done := make(chan *rpc.Call, n)
+			reqs := make([][]byte, n)
+			ress := make([][]byte, n)
+			calls := make([]*rpc.Call, n)
+			for i := 0; i < n; i++ {
+				reqs[i] = []byte{'q', byte('a' + i%26), byte('a' + i/26)}
+				calls[i] = conn.Go("B.Meet", &reqs[i], &ress[i], done)
+			}
+			got := 0
+			deadline := time.After(8 * time.Second)
+		wait:
+			for got < n {
+				select {
+				case <-done:
+					got++
+				case <-deadline:
+					break wait
+				}
+			}
+			if got != n {
+				e.fail("C04-request-not-answered", fmt.Sprintf("%d of %d requests whose handlers all returned at the same instant were never answered (header encoder %q)", n-got, n, enc), desc)
+			}
+			for i := 0; i < n && got == n; i++ {
+				if calls[i].Error != nil || !bytes.Equal(ress[i], append([]byte{0x5A}, reqs[i]...)) {
+					e.fail("C04-response-for-other-request", fmt.Sprintf("request %d of %d concurrent ones ended with err=%v reply=%q, want the echo of %q (header encoder %q)", i, n, calls[i].Error, ress[i], reqs[i], enc), desc)
+					break
+				}
+			}
+			conn.Close()
+			cend.Close()
+			e.count("concurrent-answers", fmt.Sprintf("ca-%s-%v-%d", enc, direct, round%4))
+		}
+	}
+	// arguments stay what the client sent for as long as the handler runs, also with NoCopy
+	for mode := 0; mode < 8; mode++ {
+		noCopy, pipelining, direct := mode&1 == 1, mode&2 == 2, mode&4 == 4
+		desc := map[string]interface{}{"server_nocopy": noCopy, "server_pipelining": pipelining, "server_directIO": direct, "seed": e.Seed}
+		e.inflight(desc)
+		svc := &BarrierSvc{entered: make(chan struct{}), release: make(chan struct{})}
+		asvc := &ArgSvc{seen: map[int][][32]byte{}}
+		srv := rpc.NewServer()
+		srv.SetLogLevel(rpc.OffLogLevel)
+		srv.SetNoCopy(noCopy)
+		srv.SetPipelining(pipelining)
+		srv.SetDirectIO(direct)
+		srv.RegisterName("B", svc)
+		srv.RegisterName("A", asvc)
+		// over the library's own framing (socket.Messages reads each frame into the pooled read buffer
+		// it is given, which is what the arguments alias under NoCopy)
+		c2s, s2c := newChunkPipe(func() int { return 1 << 20 }), newChunkPipe(func() int { return 1 << 20 })
+		cend := &duplex{r: s2c, w: c2s}
+		srvRW := &duplex{r: c2s, w: s2c}
+		go srv.ServeCodec(rpc.NewServerCodec(&rpc.BYTESCodec{}, nil, socket.NewMessages(srvRW, false), direct, 0))
+		conn := rpc.NewConnWithCodec(rpc.NewClientCodec(&rpc.BYTESCodec{}, nil, socket.NewMessages(cend, false), 0))
+		held := genBytes(e, 3000, 0)
+		var hres []byte
+		hc := conn.Go("B.Hold", &held, &hres, make(chan *rpc.Call, 1))
+		select {
+		case <-svc.entered:
+		case <-time.After(5 * time.Second):
+			e.fail("C04-request-not-answered", "a handler never started", desc)
+			continue
+		}
+		// further frames of several sizes arrive while the handler is still running
+		others := make(chan *rpc.Call, 400)
+		for i := 0; i < 300; i++ {
+			req := genBytes(e, 100+(i*37)%5000, i%3)
+			var res []byte
+			conn.Go("A.Take", &req, &res, others)
+		}
+		time.Sleep(20 * time.Millisecond)
+		close(svc.release)
+		select {
+		case <-hc.Done:
+		case <-time.After(5 * time.Second):
+		}
+		svc.mu.Lock()
+		ch := svc.changed
+		svc.mu.Unlock()
+		if ch != 0 {
+			e.fail("C04-arguments-change-under-handler", fmt.Sprintf("the arguments of a running handler changed while later requests arrived on its connection (NoCopy=%v pipelining=%v directIO=%v)", noCopy, pipelining, direct), desc)
+		}
+		conn.Close()
+		cend.Close()
+		e.count("args-during-handler", fmt.Sprintf("adh-%d", mode))
+	}
 }
